@@ -333,6 +333,11 @@ func (ex *Exec) report(st *State, kind, msg string, extra *smt.Term) {
 	if cond == nil {
 		cond = C.True
 	}
+	if kind == "panic" && extra != nil {
+		// an implicit panic site whose condition depends on symbolic data is a real obligation
+		ex.Obligations++
+		st.Nontriv = true
+	}
 	where := ex.where(st)
 	// listed known findings that apply to this obligation
 	full := kind + ": " + msg + " @ " + where
@@ -888,6 +893,10 @@ func (ex *Exec) resolveCall(st *State, fr *Frame, cc *ssa.CallCommon) (Value, []
 // step executes one instruction; false => path ended or was handed to the worklist.
 func (ex *Exec) step(st *State, fr *Frame, in ssa.Instruction) bool {
 	fr.MemoIdx = 0
+	if fr.PinCount != 0 && (fr.PinBlock != fr.Block || fr.PinIP != fr.IP) {
+		fr.PinCount = 0
+	}
+	fr.PinBlock, fr.PinIP = fr.Block, fr.IP
 	if fr.Memo != nil {
 		blk, ip := fr.Block, fr.IP
 		defer func() {
